@@ -12,8 +12,8 @@ Conventions
   `sliceFrom`, `sliceTo`) that yields `.panic` exactly when Go would panic
   (with `cap == len` a silent over-read is impossible, so `.oob` = `.panic`).
 * `Outcome` = what a call does: returns normally (`ok`), returns an error
-  (`err`; error texts and the byte count of error returns are not modelled), or
-  panics.
+  (`err`; error texts are not modelled; the byte count of an error return of
+  `Decode` is computed separately by `decodeNewErrN`), or panics.
 * A message object carries `dirty`, `dbuf` and the two aliases the Go code
   relies on: `mtypeflags` may be a view of `dbuf[0:1]` (`tfInBuf`) and
   `packetID` a view of two bytes of `dbuf` (`pidOff`); setters that write
@@ -545,6 +545,175 @@ def decodeNew (t : Nat) (src : Bytes) : Outcome Decoded :=
   match Msg.new t with
   | some m => decode m src
   | none => .err
+
+/-! ## The byte count returned together with an error
+
+`Decode` returns `(total, err)`: the value of the Go variable `total` at the failing `return`.
+`Outcome.err` does not carry it (the other cores that use the decoders never look at it); the
+functions below compute it.  They follow the decoders above statement by statement and call them for
+every stage that succeeds, so only the *positions* of the error returns are written a second time.
+The value is meaningful when the decoder's outcome is `.err`. -/
+
+/-- `header.decode`: `0` at every `return` before `total++`, `1` when `binary.Uvarint` fails,
+`1 + m` at the two range checks of the remaining length -/
+def Hdr.decodeErrN (h : Hdr) (src : Bytes) : Nat :=
+  if src.length < 1 then 0 else
+  let tf := src.headD 0
+  let ty := tf.toNat / 16
+  let fl := tf.toNat % 16
+  if !validType ty then 0
+  else if h.type ≠ ty then 0
+  else if ty ≠ tPUBLISH && fl ≠ defaultFlagsOf ty then 0
+  else if ty = tPUBLISH && !validQos (fl / 2 % 4) then 0
+  else
+    let r := uvarint (src.drop 1)
+    if r.2 ≤ 0 ∨ r.2 > maxVarintBytes then 1 else 1 + r.2.toNat
+
+/-- `readLPBytes`: `0` when the two length bytes are missing, `2` when the string is cut short -/
+def readLPErrN (buf : Bytes) : Nat := if buf.length < 2 then 0 else 2
+
+/-- `total += n` after a `readLPBytes(src[total:])` that failed -/
+def fieldErrN (src : Bytes) (total : Nat) : Nat := total + readLPErrN (src.drop total)
+
+/-- `DisconnectMessage.Decode`, `PubackMessage.Decode`: header error, or wrong remaining length (`total` = header length) -/
+def decodeFixedErrN (h : Hdr) (src : Bytes) : Nat :=
+  match h.decode src with
+  | .ok r => r.2
+  | _ => h.decodeErrN src
+
+/-- `ConnackMessage.Decode`: the two checks of the variable header `return 0, …` -/
+def decodeConnackErrN (h : Hdr) (src : Bytes) : Nat :=
+  match h.decode src with
+  | .ok r => if r.1.remlen ≠ 2 then r.2 else 0
+  | _ => h.decodeErrN src
+
+/-- `PublishMessage.Decode`: topic not readable; topic invalid or identifier missing (`total` = behind the topic) -/
+def decodePublishErrN (h : Hdr) (src : Bytes) : Nat :=
+  match h.decode src with
+  | .ok r =>
+    let hn := r.2
+    let src := src.take (hn + r.1.remlen)
+    match readLPBytes (src.drop hn) with
+    | .ok lp => hn + lp.2
+    | _ => fieldErrN src hn
+  | _ => h.decodeErrN src
+
+/-- `SubackMessage.Decode`: remaining length below 2; invalid return code (`total` = end of the packet) -/
+def decodeSubackErrN (h : Hdr) (src : Bytes) : Nat :=
+  match h.decode src with
+  | .ok r => if r.1.remlen < 2 then r.2 else r.2 + r.1.remlen
+  | _ => h.decodeErrN src
+
+/-- a failing iteration of the SUBSCRIBE loop: topic not readable, or QoS byte missing (`total` = behind the topic) -/
+def subStepErrN (src : Bytes) (total : Nat) : Nat :=
+  match readLPBytes (src.drop total) with
+  | .ok lp => total + lp.2
+  | _ => fieldErrN src total
+
+/-- the SUBSCRIBE loop; when it ends without an error the only error left is the empty topic list (`return 0, …`) -/
+def subLoopErrN (src : Bytes) (total remlen : Nat) : Nat :=
+  if remlen = 0 then 0 else
+  match subStep src total with
+  | .ok (_, _, n) => subLoopErrN src (total + n + 1) (remlen - n - 1)
+  | _ => subStepErrN src total
+termination_by remlen
+decreasing_by omega
+
+def decodeSubscribeErrN (h : Hdr) (src : Bytes) : Nat :=
+  match h.decode src with
+  | .ok r =>
+    let hn := r.2
+    if r.1.remlen < 2 then hn else subLoopErrN (src.take (hn + r.1.remlen)) (hn + 2) (r.1.remlen - 2)
+  | _ => h.decodeErrN src
+
+def unsubLoopErrN (src : Bytes) (total remlen : Nat) : Nat :=
+  if remlen = 0 then 0 else
+  match unsubStep src total with
+  | .ok (_, k) => unsubLoopErrN src (total + (2 + k)) (remlen - (2 + k))
+  | _ => fieldErrN src total
+termination_by remlen
+decreasing_by omega
+
+def decodeUnsubscribeErrN (h : Hdr) (src : Bytes) : Nat :=
+  match h.decode src with
+  | .ok r =>
+    let hn := r.2
+    if r.1.remlen < 2 then hn else unsubLoopErrN (src.take (hn + r.1.remlen)) (hn + 2) (r.1.remlen - 2)
+  | _ => h.decodeErrN src
+
+/-- `decodeMessage`, first section: protocol name not readable; fewer than two bytes behind it; protocol
+level (`total` = behind the level byte); the three checks of the flags byte (`total` = behind it);
+keep alive missing (`return 0, …`) -/
+def connectFixedErrN (c : ConnectF) (src : Bytes) : Nat :=
+  match readField src 0 with
+  | .ok f =>
+    let total := f.2.2
+    if (src.drop total).length < 2 then total else
+    let ver := (src.drop total).headD 0
+    if versionName ver.toNat ≠ some f.1 then total + 1 else
+    let cf := (src.drop (total + 1)).headD 0
+    let c1 : ConnectF := { c with connectFlags := cf }
+    if cf.toNat % 2 ≠ 0 then total + 2
+    else if c1.willQos > qosExactlyOnce then total + 2
+    else if !c1.willFlag && (c1.willRetain || c1.willQos ≠ qosAtMostOnce) then total + 2
+    else 0
+  | _ => fieldErrN src 0
+
+/-- client identifier not readable, or rejected (`total` = behind it) -/
+def connectClientIDErrN (src : Bytes) (total : Nat) : Nat :=
+  match readLPBytes (src.drop total) with
+  | .ok lp => total + lp.2
+  | _ => fieldErrN src total
+
+/-- will topic or will message not readable -/
+def connectWillErrN (src : Bytes) (total : Nat) : Nat :=
+  match readField src total with
+  | .ok f => fieldErrN src f.2.2
+  | _ => fieldErrN src total
+
+/-- `ConnectMessage.decodeMessage(src)`: the count of an error return, or the bytes consumed -/
+def decodeConnectMessageErrN (c : ConnectF) (src : Bytes) : Nat :=
+  match connectFixed c src with
+  | .ok r1 =>
+    match connectClientID r1.1 src r1.2 0 with
+    | .ok r2 =>
+      match connectWill r2.1 src r2.2.2 0 with
+      | .ok r3 =>
+        match connectUser r3.1 src r3.2.2.2 0 with
+        | .ok r4 =>
+          match connectPass r4.1 src r4.2.2 0 with
+          | .ok r5 => r5.2.2
+          | _ => fieldErrN src r4.2.2
+        | _ => fieldErrN src r3.2.2.2
+      | _ => connectWillErrN src r2.2.2
+    | _ => connectClientIDErrN src r1.2
+  | _ => connectFixedErrN c src
+
+/-- `ConnectMessage.Decode`: `total + n` for an error of `decodeMessage`, `total` for bytes behind the last field -/
+def decodeConnectErrN (h : Hdr) (c : ConnectF) (src : Bytes) : Nat :=
+  match h.decode src with
+  | .ok r =>
+    let hn := r.2
+    hn + decodeConnectMessageErrN c ((src.take (hn + r.1.remlen)).drop hn)
+  | _ => h.decodeErrN src
+
+/-- the byte count `m.Decode(src)` returns together with an error -/
+def decodeErrN (m : Msg) (src : Bytes) : Nat :=
+  match m with
+  | .connect h c => decodeConnectErrN h c src
+  | .connack h _ _ => decodeConnackErrN h src
+  | .publish h _ _ => decodePublishErrN h src
+  | .ack h => decodeFixedErrN h src
+  | .subscribe h _ _ => decodeSubscribeErrN h src
+  | .suback h _ => decodeSubackErrN h src
+  | .unsubscribe h _ => decodeUnsubscribeErrN h src
+  | .bare h => decodeFixedErrN h src
+
+/-- `Type(t).New()` then `Decode(src)`: the count of an error return -/
+def decodeNewErrN (t : Nat) (src : Bytes) : Nat :=
+  match Msg.new t with
+  | some m => decodeErrN m src
+  | none => 0
 
 /-! ## Len -/
 
